@@ -522,3 +522,197 @@ impl PartialEq<Addr> for String {
     fn eq(&self, o: &Addr) -> (r: bool) ensures r == (*self == o.0) { unimplemented!() }
 }
 }
+
+verus! {
+// ------------------------------------------------------------------------------ Uint256 and more Uint128 / Decimal API
+// Not used by the pinned code; modelled so that arithmetic rewritten with these std-like types
+// stays inside the verified subset.  Semantics from cosmwasm-std 1.5 math/{uint128,uint256,decimal}.rs:
+// the operators panic on overflow / underflow / zero divisor, the checked_* forms return Err.
+#[derive(Debug, Structural, PartialEq, Eq, Clone, Copy)]
+pub struct Uint256 { pub hi: u128, pub lo: u128 }
+pub open spec fn POW128() -> nat { 0x1_0000_0000_0000_0000nat * 0x1_0000_0000_0000_0000nat }
+impl Uint256 {
+    pub open spec fn v(self) -> nat { self.hi as nat * POW128() + self.lo as nat }
+    pub open spec fn fits(n: nat) -> bool { n < POW128() * POW128() }
+    #[verifier::external_body]
+    pub fn zero() -> (r: Uint256) ensures r.v() == 0 { unimplemented!() }
+    #[verifier::external_body]
+    pub fn one() -> (r: Uint256) ensures r.v() == 1 { unimplemented!() }
+    #[verifier::external_body]
+    pub fn from_u128(x: u128) -> (r: Uint256) ensures r.v() == x as nat { unimplemented!() }
+    #[verifier::external_body]
+    pub fn from_uint128(x: Uint128) -> (r: Uint256) ensures r.v() == x.0 as nat { unimplemented!() }
+    #[verifier::external_body]
+    pub fn is_zero(&self) -> (r: bool) ensures r == (self.v() == 0) { unimplemented!() }
+    #[verifier::external_body]
+    pub fn checked_add(self, o: Uint256) -> (r: Result<Uint256, OverflowError>)
+        ensures r is Ok <==> Self::fits(self.v() + o.v()), r is Ok ==> r->Ok_0.v() == self.v() + o.v()
+    { unimplemented!() }
+    #[verifier::external_body]
+    pub fn checked_sub(self, o: Uint256) -> (r: Result<Uint256, OverflowError>)
+        ensures r is Ok <==> self.v() >= o.v(), r is Ok ==> r->Ok_0.v() == self.v() - o.v()
+    { unimplemented!() }
+    #[verifier::external_body]
+    pub fn checked_mul(self, o: Uint256) -> (r: Result<Uint256, OverflowError>)
+        ensures r is Ok <==> Self::fits(self.v() * o.v()), r is Ok ==> r->Ok_0.v() == self.v() * o.v()
+    { unimplemented!() }
+    #[verifier::external_body]
+    pub fn checked_div(self, o: Uint256) -> (r: Result<Uint256, DivideByZeroError>)
+        ensures r is Ok <==> o.v() != 0, r is Ok ==> r->Ok_0.v() == self.v() / o.v()
+    { unimplemented!() }
+}
+#[derive(Debug)]
+pub struct DivideByZeroError { pub dummy: u8 }
+#[derive(Debug)]
+pub struct ConversionOverflowError { pub dummy: u8 }
+impl FromSpecImpl<Uint128> for Uint256 {
+    open spec fn obeys_from_spec() -> bool { false }
+    open spec fn from_spec(v: Uint128) -> Self { Uint256 { hi: 0, lo: v.0 } }
+}
+impl From<Uint128> for Uint256 {
+    #[verifier::external_body]
+    fn from(v: Uint128) -> (r: Uint256) ensures r.v() == v.0 as nat { unimplemented!() }
+}
+impl FromSpecImpl<u128> for Uint256 {
+    open spec fn obeys_from_spec() -> bool { false }
+    open spec fn from_spec(v: u128) -> Self { Uint256 { hi: 0, lo: v } }
+}
+impl From<u128> for Uint256 {
+    #[verifier::external_body]
+    fn from(v: u128) -> (r: Uint256) ensures r.v() == v as nat { unimplemented!() }
+}
+impl FromSpecImpl<u64> for Uint256 {
+    open spec fn obeys_from_spec() -> bool { false }
+    open spec fn from_spec(v: u64) -> Self { Uint256 { hi: 0, lo: v as u128 } }
+}
+impl From<u64> for Uint256 {
+    #[verifier::external_body]
+    fn from(v: u64) -> (r: Uint256) ensures r.v() == v as nat { unimplemented!() }
+}
+impl AddSpecImpl<Uint256> for Uint256 {
+    open spec fn obeys_add_spec() -> bool { false }
+    open spec fn add_req(self, o: Uint256) -> bool { Uint256::fits(self.v() + o.v()) }
+    open spec fn add_spec(self, o: Uint256) -> Uint256 { self }
+}
+impl core::ops::Add<Uint256> for Uint256 {
+    type Output = Uint256;
+    #[verifier::external_body]
+    fn add(self, o: Uint256) -> (r: Uint256) ensures r.v() == self.v() + o.v() { unimplemented!() }
+}
+impl vstd::std_specs::ops::SubSpecImpl<Uint256> for Uint256 {
+    open spec fn obeys_sub_spec() -> bool { false }
+    open spec fn sub_req(self, o: Uint256) -> bool { self.v() >= o.v() }
+    open spec fn sub_spec(self, o: Uint256) -> Uint256 { self }
+}
+impl core::ops::Sub<Uint256> for Uint256 {
+    type Output = Uint256;
+    #[verifier::external_body]
+    fn sub(self, o: Uint256) -> (r: Uint256) ensures r.v() == self.v() - o.v() { unimplemented!() }
+}
+impl vstd::std_specs::ops::MulSpecImpl<Uint256> for Uint256 {
+    open spec fn obeys_mul_spec() -> bool { false }
+    open spec fn mul_req(self, o: Uint256) -> bool { Uint256::fits(self.v() * o.v()) }
+    open spec fn mul_spec(self, o: Uint256) -> Uint256 { self }
+}
+impl core::ops::Mul<Uint256> for Uint256 {
+    type Output = Uint256;
+    #[verifier::external_body]
+    fn mul(self, o: Uint256) -> (r: Uint256) ensures r.v() == self.v() * o.v() { unimplemented!() }
+}
+impl vstd::std_specs::ops::DivSpecImpl<Uint256> for Uint256 {
+    open spec fn obeys_div_spec() -> bool { false }
+    open spec fn div_req(self, o: Uint256) -> bool { o.v() != 0 }
+    open spec fn div_spec(self, o: Uint256) -> Uint256 { self }
+}
+impl core::ops::Div<Uint256> for Uint256 {
+    type Output = Uint256;
+    #[verifier::external_body]
+    fn div(self, o: Uint256) -> (r: Uint256) ensures r.v() == self.v() / o.v() { unimplemented!() }
+}
+impl PartialOrdSpecImpl for Uint256 {
+    open spec fn obeys_partial_cmp_spec() -> bool { true }
+    open spec fn partial_cmp_spec(&self, o: &Uint256) -> Option<core::cmp::Ordering> {
+        if self.v() < o.v() { Some(core::cmp::Ordering::Less) } else if self.v() == o.v() { Some(core::cmp::Ordering::Equal) } else { Some(core::cmp::Ordering::Greater) }
+    }
+}
+impl PartialOrd for Uint256 {
+    #[verifier::external_body]
+    fn partial_cmp(&self, o: &Uint256) -> (r: Option<core::cmp::Ordering>) { unimplemented!() }
+}
+impl Uint128 {
+    /// `Uint128::full_mul`: the exact 256-bit product
+    #[verifier::external_body]
+    pub fn full_mul<A: IntoU128>(self, o: A) -> (r: Uint256) ensures r.v() == self.0 as nat * o.uv() as nat { unimplemented!() }
+    /// `Uint128::try_from(Uint256)`
+    #[verifier::external_body]
+    pub fn try_from(x: Uint256) -> (r: Result<Uint128, ConversionOverflowError>)
+        ensures r is Ok <==> x.v() <= u128::MAX, r is Ok ==> r->Ok_0.0 as nat == x.v()
+    { unimplemented!() }
+    pub fn checked_div(self, o: Uint128) -> (r: Result<Uint128, DivideByZeroError>)
+        ensures r is Ok <==> o.0 != 0, r is Ok ==> r->Ok_0.0 == self.0 / o.0
+    { if o.0 == 0 { Err(DivideByZeroError { dummy: 0 }) } else { Ok(Uint128(self.0 / o.0)) } }
+    pub fn checked_rem(self, o: Uint128) -> (r: Result<Uint128, DivideByZeroError>)
+        ensures r is Ok <==> o.0 != 0, r is Ok ==> r->Ok_0.0 == self.0 % o.0
+    { if o.0 == 0 { Err(DivideByZeroError { dummy: 0 }) } else { Ok(Uint128(self.0 % o.0)) } }
+    pub fn abs_diff(self, o: Uint128) -> (r: Uint128)
+        ensures r.0 == (if self.0 >= o.0 { (self.0 - o.0) as u128 } else { (o.0 - self.0) as u128 })
+    { if self.0 >= o.0 { Uint128(self.0 - o.0) } else { Uint128(o.0 - self.0) } }
+    pub fn min(self, o: Uint128) -> (r: Uint128) ensures r.0 == (if self.0 <= o.0 { self.0 } else { o.0 })
+    { if self.0 <= o.0 { self } else { o } }
+    pub fn max(self, o: Uint128) -> (r: Uint128) ensures r.0 == (if self.0 >= o.0 { self.0 } else { o.0 })
+    { if self.0 >= o.0 { self } else { o } }
+    /// `Uint128::mul_ceil(Decimal)`: ceil(self * d); panics on overflow
+    #[verifier::external_body]
+    pub fn mul_ceil(self, d: Decimal) -> (r: Uint128)
+        requires muldiv(self.0 as nat, d.0 as nat, DECIMAL_FRACTIONAL()) < u128::MAX,
+        ensures r.0 as nat == (if (self.0 as nat * d.0 as nat) % DECIMAL_FRACTIONAL() == 0 { muldiv(self.0 as nat, d.0 as nat, DECIMAL_FRACTIONAL()) } else { muldiv(self.0 as nat, d.0 as nat, DECIMAL_FRACTIONAL()) + 1 }),
+    { unimplemented!() }
+    #[verifier::external_body]
+    pub fn checked_mul_floor(self, d: Decimal) -> (r: Result<Uint128, CheckedMultiplyRatioError>)
+        ensures
+            r is Ok <==> muldiv(self.0 as nat, d.0 as nat, DECIMAL_FRACTIONAL()) <= u128::MAX,
+            r is Ok ==> r->Ok_0.0 as nat == muldiv(self.0 as nat, d.0 as nat, DECIMAL_FRACTIONAL()),
+    { unimplemented!() }
+}
+impl vstd::std_specs::ops::RemSpecImpl<Uint128> for Uint128 {
+    open spec fn obeys_rem_spec() -> bool { true }
+    open spec fn rem_req(self, o: Uint128) -> bool { o.0 != 0 }
+    open spec fn rem_spec(self, o: Uint128) -> Uint128 { Uint128(self.0 % o.0) }
+}
+impl core::ops::Rem<Uint128> for Uint128 {
+    type Output = Uint128;
+    fn rem(self, o: Uint128) -> (r: Uint128) { Uint128(self.0 % o.0) }
+}
+impl vstd::std_specs::ops::SubAssignSpecImpl<Uint128> for Uint128 {
+    open spec fn obeys_sub_assign_spec() -> bool { true }
+    open spec fn sub_assign_req(&self, o: Uint128) -> bool { self.0 >= o.0 }
+    open spec fn sub_assign_spec(&self, o: Uint128) -> &Uint128 { &Uint128((self.0 - o.0) as u128) }
+}
+impl core::ops::SubAssign<Uint128> for Uint128 {
+    fn sub_assign(&mut self, o: Uint128) { self.0 = self.0 - o.0; }
+}
+impl Decimal {
+    /// decimal.rs `percent` / `permille`: x/100, x/1000
+    pub fn percent(x: u64) -> (r: Decimal) ensures r.0 == x as u128 * 10_000_000_000_000_000 { Decimal(x as u128 * 10_000_000_000_000_000) }
+    pub fn permille(x: u64) -> (r: Decimal) ensures r.0 == x as u128 * 1_000_000_000_000_000 { Decimal(x as u128 * 1_000_000_000_000_000) }
+    pub fn atomics(&self) -> (r: Uint128) ensures r.0 == self.0 { Uint128(self.0) }
+    #[verifier::external_body]
+    pub fn checked_from_ratio(n: impl IntoU128, d: impl IntoU128) -> (r: Result<Decimal, CheckedMultiplyRatioError>)
+        ensures
+            r is Ok <==> d.uv() != 0 && decimal_ratio(n.uv() as nat, d.uv() as nat) <= u128::MAX,
+            r is Ok ==> r->Ok_0.0 as nat == decimal_ratio(n.uv() as nat, d.uv() as nat),
+    { unimplemented!() }
+    pub fn to_uint_floor(self) -> (r: Uint128) ensures r.0 == self.0 / 1_000_000_000_000_000_000 { Uint128(self.0 / 1_000_000_000_000_000_000) }
+}
+impl PartialOrdSpecImpl for Decimal {
+    open spec fn obeys_partial_cmp_spec() -> bool { true }
+    open spec fn partial_cmp_spec(&self, o: &Decimal) -> Option<core::cmp::Ordering> {
+        if self.0 < o.0 { Some(core::cmp::Ordering::Less) } else if self.0 == o.0 { Some(core::cmp::Ordering::Equal) } else { Some(core::cmp::Ordering::Greater) }
+    }
+}
+impl PartialOrd for Decimal {
+    fn partial_cmp(&self, o: &Decimal) -> (r: Option<core::cmp::Ordering>) {
+        if self.0 < o.0 { Some(core::cmp::Ordering::Less) } else if self.0 == o.0 { Some(core::cmp::Ordering::Equal) } else { Some(core::cmp::Ordering::Greater) }
+    }
+}
+}
